@@ -16,7 +16,13 @@ def jobs(tier):
                          'uint_length', 'put_float', 'put_double', 'put_ldouble', 'get_float', 'get_double', 'get_ldouble'}
         j.strict_reach = False
         J.append(j)
+    # the writer's output goes through the compression layer: its encoder-side obligations (literal-run bound, flush) are
+    # decided by the C12 jobs, run here too because the binary round trip depends on them
+    from checks import c12
+    for j in c12.jobs('quick'):
+        if j.name.startswith(('output_byte.', 'symb_flush.')):
+            J.append(j)
     return J
 
 
-META = {'functions': ['write_int', 'write_uint', 'write_float', 'write_double', 'write_ldouble', 'put_ldouble', 'read_token', 'read_int', 'read_uint'], 'undecided_part': '', 'trusted_base': ['ghost byte queue in harness/c11_codec.c', 'models/error.h']}
+META = {'functions': ['write_int', 'write_uint', 'write_float', 'write_double', 'write_ldouble', 'put_ldouble', 'read_token', 'read_int', 'read_uint', '_reduce_output_byte', '_reduce_symb_flush'], 'undecided_part': '', 'trusted_base': ['ghost byte queue in harness/c11_codec.c', 'models/error.h']}
